@@ -769,3 +769,37 @@ mut('c17-exclude-parent', 'C17', ['C17.4'], M,
 mut('c17-extra-forbid', 'C17', ['C17.4'], M,
     "    model_config = ConfigDict(\n        extra='allow',", "    model_config = ConfigDict(\n        extra='ignore',",
     'payload fields dropped on validation')
+
+# ================================================================================================ C18
+mut('c18-removal-not-in-finally', 'C18', ['C18.1'], S,
+    "        try:\n            # Wait for the future with optional timeout\n            if timeout is not None:\n                return await asyncio.wait_for(future, timeout=timeout)\n            else:\n                return await future\n        finally:\n            # Clean up handler\n",
+    "        try:\n            # Wait for the future with optional timeout\n            if timeout is not None:\n                return await asyncio.wait_for(future, timeout=timeout)\n            else:\n                return await future\n        except TimeoutError:\n            raise\n        else:\n            # Clean up handler\n",
+    'handler removed only on success')
+mut('c18-removal-only-if-done', 'C18', ['C18.1'], S,
+    "            if event_key in self.handlers and notify_expect_handler in self.handlers[event_key]:\n",
+    "            if future.done() and event_key in self.handlers and notify_expect_handler in self.handlers[event_key]:\n",
+    'handler stays subscribed after a timeout / cancellation')
+mut('c18-await-before-try', 'C18', ['C18.1'], S,
+    "        self.on(event_type, notify_expect_handler)\n\n        try:\n",
+    "        self.on(event_type, notify_expect_handler)\n        await asyncio.sleep(0)\n\n        try:\n",
+    'cancellation between registration and try leaks the handler')
+mut('c18-key-str-for-classes', 'C18', ['C18.2'], S,
+    "            event_key: str = event_type.__name__ if isinstance(event_type, type) else str(event_type)",
+    "            event_key: str = str(event_type)",
+    'class patterns never unsubscribed')
+mut('c18-no-exclude', 'C18', ['C18.3'], S,
+    "            if not future.done() and include(event) and not exclude(event):", "            if not future.done() and include(event):",
+    'excluded events resolve the future')
+mut('c18-no-done-check', 'C18', ['C18.3'], S,
+    "            if not future.done() and include(event) and not exclude(event):", "            if include(event) and not exclude(event):",
+    'second match raises InvalidStateError')
+mut('c18-or-merge', 'C18', ['C18.3'], S,
+    "orig(e) and pred(e)", "orig(e) or pred(e)",
+    'include OR predicate')
+mut('c18-swallow-timeout', 'C18', ['C18.4'], S,
+    "                return await asyncio.wait_for(future, timeout=timeout)\n",
+    "                try:\n                    return await asyncio.wait_for(future, timeout=timeout)\n                except TimeoutError:\n                    return None  # type: ignore\n",
+    'timeout returns None instead of raising')
+mut('c18-ignore-timeout', 'C18', ['C18.4'], S,
+    "                return await asyncio.wait_for(future, timeout=timeout)\n", "                return await asyncio.wait_for(future, timeout=None)\n",
+    'timeout ignored')
